@@ -76,6 +76,16 @@ OPEN_TYPE_ber_get(const asn_codec_ctx_t *opt_codec_ctx,
         }
     }
 
+    if(*memb_ptr2 == NULL) {
+        /* Optional member: allocate the Open Type structure itself */
+        const asn_CHOICE_specifics_t *specs =
+            (const asn_CHOICE_specifics_t *)elm->type->specifics;
+        *memb_ptr2 = CALLOC(1, specs->struct_size);
+        if(*memb_ptr2 == NULL) {
+            ASN__DECODE_FAILED;
+        }
+    }
+
     inner_value =
         (char *)*memb_ptr2
         + elm->type->elements[selected.presence_index - 1].memb_offset;
@@ -109,12 +119,12 @@ OPEN_TYPE_ber_get(const asn_codec_ctx_t *opt_codec_ctx,
     if(*memb_ptr2) {
         const asn_CHOICE_specifics_t *specs =
             (const asn_CHOICE_specifics_t *)elm->type->specifics;
+        ASN_STRUCT_FREE_CONTENTS_ONLY(*selected.type_descriptor,
+                                      inner_value);
         if(elm->flags & ATF_POINTER) {
-            ASN_STRUCT_FREE(*selected.type_descriptor, inner_value);
+            FREEMEM(*memb_ptr2);
             *memb_ptr2 = NULL;
         } else {
-            ASN_STRUCT_FREE_CONTENTS_ONLY(*selected.type_descriptor,
-                                          inner_value);
             memset(*memb_ptr2, 0, specs->struct_size);
         }
     }
@@ -152,7 +162,6 @@ OPEN_TYPE_xer_get(const asn_codec_ctx_t *opt_codec_ctx,
     }
 
     /* Fetch the pointer to this member */
-    assert(elm->flags == ATF_OPEN_TYPE);
     if(elm->flags & ATF_POINTER) {
         memb_ptr2 = (void **)((char *)sptr + elm->memb_offset);
     } else {
@@ -201,6 +210,16 @@ OPEN_TYPE_xer_get(const asn_codec_ctx_t *opt_codec_ctx,
         ASN__DECODE_FAILED;
     }
 
+    if(*memb_ptr2 == NULL) {
+        /* Optional member: allocate the Open Type structure itself */
+        const asn_CHOICE_specifics_t *specs =
+            (const asn_CHOICE_specifics_t *)elm->type->specifics;
+        *memb_ptr2 = CALLOC(1, specs->struct_size);
+        if(*memb_ptr2 == NULL) {
+            ASN__DECODE_FAILED;
+        }
+    }
+
     inner_value =
         (char *)*memb_ptr2
         + elm->type->elements[selected.presence_index - 1].memb_offset;
@@ -231,12 +250,12 @@ OPEN_TYPE_xer_get(const asn_codec_ctx_t *opt_codec_ctx,
         if(*memb_ptr2) {
             const asn_CHOICE_specifics_t *specs =
                 (const asn_CHOICE_specifics_t *)elm->type->specifics;
+            ASN_STRUCT_FREE_CONTENTS_ONLY(*selected.type_descriptor,
+                                          inner_value);
             if(elm->flags & ATF_POINTER) {
-                ASN_STRUCT_FREE(*selected.type_descriptor, inner_value);
+                FREEMEM(*memb_ptr2);
                 *memb_ptr2 = NULL;
             } else {
-                ASN_STRUCT_FREE_CONTENTS_ONLY(*selected.type_descriptor,
-                                              inner_value);
                 memset(*memb_ptr2, 0, specs->struct_size);
             }
         }
@@ -311,7 +330,6 @@ OPEN_TYPE_uper_get(const asn_codec_ctx_t *opt_codec_ctx,
     }
 
     /* Fetch the pointer to this member */
-    assert(elm->flags == ATF_OPEN_TYPE);
     if(elm->flags & ATF_POINTER) {
         memb_ptr2 = (void **)((char *)sptr + elm->memb_offset);
     } else {
@@ -322,6 +340,16 @@ OPEN_TYPE_uper_get(const asn_codec_ctx_t *opt_codec_ctx,
         /* Make sure we reset the structure first before encoding */
         if(CHOICE_variant_set_presence(elm->type, *memb_ptr2, 0)
            != 0) {
+            ASN__DECODE_FAILED;
+        }
+    }
+
+    if(*memb_ptr2 == NULL) {
+        /* Optional member: allocate the Open Type structure itself */
+        const asn_CHOICE_specifics_t *specs =
+            (const asn_CHOICE_specifics_t *)elm->type->specifics;
+        *memb_ptr2 = CALLOC(1, specs->struct_size);
+        if(*memb_ptr2 == NULL) {
             ASN__DECODE_FAILED;
         }
     }
@@ -347,12 +375,12 @@ OPEN_TYPE_uper_get(const asn_codec_ctx_t *opt_codec_ctx,
         if(*memb_ptr2) {
             const asn_CHOICE_specifics_t *specs =
                 (const asn_CHOICE_specifics_t *)elm->type->specifics;
+            ASN_STRUCT_FREE_CONTENTS_ONLY(*selected.type_descriptor,
+                                          inner_value);
             if(elm->flags & ATF_POINTER) {
-                ASN_STRUCT_FREE(*selected.type_descriptor, inner_value);
+                FREEMEM(*memb_ptr2);
                 *memb_ptr2 = NULL;
             } else {
-                ASN_STRUCT_FREE_CONTENTS_ONLY(*selected.type_descriptor,
-                                              inner_value);
                 memset(*memb_ptr2, 0, specs->struct_size);
             }
         }
